@@ -40,7 +40,7 @@ func (c02) Cases(tier string) int {
 	if tier == "thorough" {
 		return 240000
 	}
-	return 18000
+	return 36000
 }
 func (c02) RaceCases(tier string) int {
 	if tier == "thorough" {
